@@ -48,25 +48,29 @@ WORM_GEAR_AND_WHEEL_AVAILABLE_PRESSURE_ANGLES = [
 ]
 
 
+def _worm_gear_and_wheel_data_row(pressure_angle: Angle) -> pd.Series:
+    return WORM_GEAR_AND_WHEEL_DATA.iloc[
+        WORM_GEAR_AND_WHEEL_AVAILABLE_PRESSURE_ANGLES.index(pressure_angle)
+    ]
+
+
 def worm_gear_and_wheel_maximum_helix_angle_function(
         pressure_angle: Angle
 ) -> Angle:
     return Angle(
         value=float(
-            WORM_GEAR_AND_WHEEL_DATA.set_index('Pressure Angle').loc[
-                pressure_angle.to('deg').value,
-                'Maximum Helix Angle'
-            ]
+            _worm_gear_and_wheel_data_row(
+                pressure_angle=pressure_angle
+            )['Maximum Helix Angle']
         ),
         unit='deg'
     )
 
 
 def worm_wheel_lewis_factor_function(pressure_angle: Angle) -> Angle:
-    return WORM_GEAR_AND_WHEEL_DATA.set_index('Pressure Angle').loc[
-        pressure_angle.to('deg').value,
-        'Lewis Factor'
-    ]
+    return _worm_gear_and_wheel_data_row(
+        pressure_angle=pressure_angle
+    )['Lewis Factor']
 
 
 class MechanicalObject(ABC):
